@@ -272,6 +272,23 @@ def unknown_names():
         valid.update(spellings(n))
     cands = ["", " ", "sandvine", "sandvine_", "fetch_mix_it_bologna_daily", "load_sandvine_audio", "mix_it_dataset_description",
              "RemoteFileMetadata", "load_dataset", "_base", "SANDVINE_AUDIO", "Mix-It-Bologna_Daily", "ix-br", "ams-ix", "mix-it"]
+    # every attribute visible in the lookup namespaces, as it is and with a loader prefix stripped: none
+    # of them is a documented dataset name (unless it is one)
+    import importlib
+    for modname in ("_datasets", "_base", "_sandvine", "_mix_it", "_ams_ix", "_ix_br"):
+        try:
+            mod = importlib.import_module("traffic_weaver.datasets." + modname)
+        except Exception:
+            continue
+        for attr in dir(mod):
+            if attr.startswith("__"):
+                continue
+            cands.append(attr)
+            for pre in ("load_", "fetch_"):
+                if attr.startswith(pre):
+                    rest = attr[len(pre):]
+                    cands.append(rest)
+                    cands.append(rest.replace("_", "-"))
     docs = [n for n, t in documented_names()]
     for n in docs[::2]:
         i = (len(n) * 7) % len(n)
